@@ -3,11 +3,11 @@
    statements only, proofs in ZV.Cli.{FioProofs,SparseProofs}.
 
    Quantifiers: i = the invocation (mode, file arguments incl. stdin, -c / -o / -O, -f, the --rm / --keep flags in
-   order, interactive confirmation, -r, --exclude-compressed, -D, --patch-from), ls = directory listings (for -r),
+   order, the first byte of the answer typed at a prompt, -r, --exclude-compressed, -D, --patch-from), ls = directory listings (for -r),
    s0 = the initial file system (regular files, directories, symbolic links), vs = how the environment behaves on
    each file: what libzstd produces / reports, and which of fopen / open(O_CREAT) / fwrite / fclose / remove fail. *)
 From Coq Require Import NArith List Bool.
-From ZV.Cli Require Import FsModel FioModel FioSpec SparseModel FioProofs SparseProofs.
+From ZV.Cli Require Import FsModel FioModel FioSpec SparseModel FioProofs FioProofsR3 SparseProofs.
 Import ListNotations.
 Local Open Scope N_scope.
 
@@ -33,14 +33,15 @@ Print Assumptions sigint_safe.
    --rm is never unlinked, truncated or written -- whether a destination name is that file or a symbolic link to
    it -- in every intermediate state, also after SIGINT, under any injected fault. *)
 Theorem no_clobber : forall i ls s0 vs p f,
-  i_force i = false -> i_confirm i = false -> s0 p = Reg f ->
+  i_force i = false -> confirm i = false -> s0 p = Reg f ->
   (~ In p (eff_srcs i ls s0) \/ eff_rm i (eff_srcs i ls s0) = false) ->
   all_pref (fun s h => s p = Reg f /\ unlinked h s p = Reg f) (fio_ops i ls s0 vs) s0 None.
 Proof. exact no_clobber_thm. Qed.
 Print Assumptions no_clobber.
 
 (* A source is removed only if it is one of the processed names, the last of --rm / --keep is --rm, the mode is not
-   test, the output is neither stdout nor one file for several sources, and the source is not stdin. *)
+   test, the output is neither stdout nor one file for several sources, no two sources share a name in the flat
+   output directory (eff_rm, 175caff), and the source is not stdin. *)
 Theorem src_removed_only_if : forall i ls s vs q,
   In (OUnlinkSrc q) (fio_ops i ls s vs) ->
   In q (eff_srcs i ls s) /\ eff_rm i (eff_srcs i ls s) = true /\ is_concat i (eff_srcs i ls s) = false /\
@@ -55,6 +56,54 @@ Theorem removeSrc_disabled_when_output_cannot_stand_for_source : forall i ls s v
   Forall (fun o => is_unlink_src o = false) (fio_ops i ls s vs).
 Proof. exact removeSrc_disabled_thm. Qed.
 Print Assumptions removeSrc_disabled_when_output_cannot_stand_for_source.
+
+(* --output-dir-flat with two sources whose names after the last '/' are equal (FIO_keepSourcesOnCollision, 175caff):
+   no source is removed, whatever --rm, -f, the mode, the codec and the faults are. *)
+Theorem flat_collision_keeps_sources : forall i ls s vs,
+  flat_collision i (eff_srcs i ls s) = true ->
+  Forall (fun o => is_unlink_src o = false) (fio_ops i ls s vs).
+Proof. exact flat_collision_keeps_sources_thm. Qed.
+Print Assumptions flat_collision_keeps_sources.
+
+(* Compression into a flat output directory WITHOUT the hypothesis that the destinations of distinct sources are
+   distinct (wf_shared_dst = wf minus that clause; -f allowed): after any k operations, and after SIGINT at any point,
+   every regular source still holds its bytes or its destination is closed and holds data standing for it. Either the
+   names collide and --rm is off, or they do not and the destinations are distinct. *)
+Theorem crash_safe_flat_compress : forall rel i ls s0 vs d,
+  i_mode i = Compress -> eff_out i (eff_srcs i ls s0) = OutDir d -> wf_shared_dst i (eff_srcs i ls s0) s0 ->
+  forall src f0, In src (eff_srcs i ls s0) -> look s0 src = Reg f0 -> verdict_sound rel i (f_bytes f0) (vs src) ->
+  forall k, safe rel (target s0 src) (f_bytes f0) (dst_of i (eff_srcs i ls s0) src) (run (firstn k (fio_ops i ls s0 vs)) s0) /\
+            safe rel (target s0 src) (f_bytes f0) (dst_of i (eff_srcs i ls s0) src) (run (sigint_ops k (fio_ops i ls s0 vs)) s0).
+Proof. exact crash_safe_flat_compress_thm. Qed.
+Print Assumptions crash_safe_flat_compress.
+
+(* removeSrcFile off for whatever reason (a flat-directory collision in either mode, --keep last, ...), destinations
+   possibly shared, no hypothesis on the codec: every regular source is recoverable in every state, also after SIGINT. *)
+Theorem rm_off_sources_intact : forall rel i ls s0 vs,
+  wf_shared_dst i (eff_srcs i ls s0) s0 -> eff_rm i (eff_srcs i ls s0) = false -> is_concat i (eff_srcs i ls s0) = false ->
+  forall src f0, In src (eff_srcs i ls s0) -> look s0 src = Reg f0 ->
+  forall k, safe rel (target s0 src) (f_bytes f0) (dst_of i (eff_srcs i ls s0) src) (run (firstn k (fio_ops i ls s0 vs)) s0) /\
+            safe rel (target s0 src) (f_bytes f0) (dst_of i (eff_srcs i ls s0) src) (run (sigint_ops k (fio_ops i ls s0 vs)) s0).
+Proof. exact rm_off_sources_intact_thm. Qed.
+Print Assumptions rm_off_sources_intact.
+
+(* The prompts (UTIL_requireUserConfirmation as repaired in f7ae77e): unless the answer starts with 'y' or 'Y' -- a NUL
+   byte, end of input and every other byte included -- a pre-existing regular file is never unlinked, truncated or
+   written, in every intermediate state, also after SIGINT, under any fault. *)
+Theorem no_clobber_unless_y : forall i ls s0 vs p f,
+  i_force i = false -> i_answer i <> Some 121 -> i_answer i <> Some 89 -> s0 p = Reg f ->
+  (~ In p (eff_srcs i ls s0) \/ eff_rm i (eff_srcs i ls s0) = false) ->
+  all_pref (fun s h => s p = Reg f /\ unlinked h s p = Reg f) (fio_ops i ls s0 vs) s0 None.
+Proof. exact no_clobber_unless_y_thm. Qed.
+Print Assumptions no_clobber_unless_y.
+
+(* Several sources into one -o file, the "Proceed? (y/n)" prompt answered with anything but y / Y: nothing is opened. *)
+Theorem concat_prompt_unless_y : forall i names s vs p,
+  i_force i = false -> i_answer i <> Some 121 -> i_answer i <> Some 89 ->
+  is_concat i names = true -> eff_out i names = OutFile p -> dict_check i s vs = None ->
+  fio_main i names s vs = [OExit 1].
+Proof. exact concat_prompt_unless_y_thm. Qed.
+Print Assumptions concat_prompt_unless_y.
 
 (* One source, one destination file, any fault except a failing remove() of the artefact itself: exit status 0 comes
    with the complete closed output (or with a source skipped by --exclude-compressed); every other run ends with a
